@@ -415,6 +415,13 @@ def selector_rules(chk, F, cfg, r_scan='R01.1', r_pure='R01.2', r_ord='R04.5', r
     fn = F.fn('eval::DynCtx::match_call_pattern')
     inline = lambda f, d, n: f.kind in ('fn', 'assoc') and f.locals[0]['ty'] == 'bool' and len(f.blocks) < 30  # noqa: E731  (derived PartialEq::eq etc.)
     paths = symex.Interp(F, inline=inline).run(fn)
+    if symex.MODE.get('combinators'):
+        # an iterator pipeline ending in `.next().transpose().map_err(..)` is recognised as a pipeline on the reading that keeps the
+        # combinators as calls; executing them by contract only helps when the scan is spelled some other way
+        root_pred_ = lambda x: x[0] == 'ref' and x[1][1][-1:] == (('f', 'call_patterns'),) and x[1][0] == ('ptr', ('param', 0, 2))  # noqa: E731
+        plain = symex.Interp(F, inline=inline, mode={'combinators': False, 'inline_private': symex.MODE.get('inline_private')}).run(fn)
+        if any(L.pipeline_calls(p.outcome[1], root_pred_) is not None for p in plain if p.outcome[0] == 'return'):
+            paths = plain
     chk.analysed(fn)
 
     def mode_of(p):
